@@ -313,7 +313,7 @@ def wl_shift(ctx, idx, rng):
 
 def workloads(ctx):
     q = ctx.tier == "quick"
-    return [("shift", 1120 if q else 42000, wl_shift)]
+    return [("shift", 4480 if q else 42000, wl_shift)]
 
 
 def setup(ctx):
